@@ -159,6 +159,18 @@ def c_bag(ctx, case):
     compare(ctx, got2, want2, "(bag vs list, one item duplicated)")
     moved = max(float(np.abs(want2[k] - want[k]).max() / (np.abs(want[k]).max() + 1e-300)) for k in want)
     ctx.stat_max("relative change caused by the duplicate", moved)
+    # the SAME bag object trained from twice in one process, the second time with another assignment of the items to
+    # the classes: each training equals the list training with the labels it was given
+    if case["estimator"] != "ivector":
+        y3 = np.roll(y, 1)
+        if (y3 != y).any():
+            ctx.event("same-bag-two-labellings")
+            bag = make_bag(stats, case["layout"])
+            with sched.owned(s["order"], s["seed"] + 2, s["isolate"]):
+                first = train(case, bag, y)
+                second = train(case, bag, y3)
+            compare(ctx, first, want, "(bag vs list, first training from this bag)")
+            compare(ctx, second, train(case, sut.sessions_of(case), y3), "(bag vs list, same bag trained again with other labels)")
 
 
 def g_allparts(draw):
